@@ -36,7 +36,8 @@ type Prog struct {
 	SSA   *ssa.Program
 	SPkgs map[string]*ssa.Package
 
-	Notes []string // rename resolutions (anchors.go)
+	Notes   []string // rename resolutions (anchors.go)
+	anchors *anchorFile
 
 	cg       *callgraph.Graph
 	modFuncs []*ssa.Function
@@ -184,12 +185,7 @@ func FuncKey(f *ssa.Function) string {
 	if k, ok := aliasedKey(f); ok {
 		return k
 	}
-	pk := FuncPkg(f)
-	name := f.RelString(pk)
-	if pk != nil {
-		return pk.Name() + "." + name
-	}
-	return name
+	return rawKey(f)
 }
 
 // FuncDecl finds the ast.FuncDecl of a declared function.
@@ -235,11 +231,11 @@ func (p *Prog) lookupFunc(pkg, name string) *ssa.Function {
 	i := strings.LastIndex(name, ".")
 	tn, mn := name[:i], name[i+1:]
 	tn = strings.Trim(tn, "()*")
-	t := sp.Type(tn)
-	if t == nil {
+	nt := p.Type(pkg, tn)
+	if nt == nil {
 		return nil
 	}
-	named := t.Type()
+	var named types.Type = nt
 	for _, ty := range []types.Type{named, types.NewPointer(named)} {
 		ms := p.SSA.MethodSets.MethodSet(ty)
 		if sel := ms.Lookup(sp.Pkg, mn); sel != nil {
